@@ -16,6 +16,9 @@ PASS_LAST = {
     "expect", "borrow", "borrow_mut", "as_ref", "as_mut", "to_owned", "saturating_add", "saturating_sub",
     "wrapping_add", "wrapping_sub", "checked_add", "checked_sub", "pow", "next_power_of_two", "try_into",
     "try_from", "copied", "cloned", "get", "ok", "unwrap_unchecked", "new",
+    # Option / iterator plumbing: the value (or the elements) of the receiver come out again
+    "chain", "or", "or_else", "ok_or", "ok_or_else", "filter", "take", "skip", "rev", "by_ref", "peekable", "flatten", "zip", "then_some",
+    "unwrap_or_else", "into_iter", "iter", "iter_mut", "next", "next_back", "last", "nth", "find", "expect_err", "as_deref", "as_deref_mut",
 }
 
 
@@ -127,6 +130,17 @@ class Taint:
                         for tag in self.tags_of_op(b, st, t["args"][0]):
                             if tag[0] == "CLOSURE" and tag[1] in self.ret:
                                 add(dest, self.ret[tag[1]])
+                    # a closure handed to a std adaptor receives the receiver's value / elements as its parameter
+                    if f.get("crate") != "petgraph" and len(t["args"]) >= 2:
+                        recv = {x for x in self.tags_of_op(b, st, t["args"][0]) if x[0] != "CLOSURE"}
+                        if recv:
+                            for a in t["args"][1:]:
+                                for tag in self.tags_of_op(b, st, a):
+                                    if tag[0] == "CLOSURE" and tag[1] in self.state:
+                                        cst = self.state[tag[1]]
+                                        if not recv <= cst[2]:
+                                            cst[2] |= recv
+                                            changed = True
                     # closures passed to iterator adaptors (map/filter_map): result carries closure's return
                     if f.get("crate") != "petgraph" and last_seg(f["path"]) in ("map", "filter_map", "flat_map", "and_then", "then", "map_or", "unwrap_or_else"):
                         for a in t["args"]:
